@@ -13,6 +13,9 @@ An expression is a JSON-able nested list:
     ["gauss", a]       exp(-a**2)
     ["hyp", a]         sqrt(1 + a**2)
     ["lg", a]          log(1 + a**2)
+    ["asinsin", a]     asin(sin(a))   angle-wrap idioms: total and continuous, but
+    ["acoscos", a]     acos(cos(a))   not differentiable at the kinks, so they are
+    ["atantan", a]     atan(tan(a))   only generated for value-only workloads
 
 Every production is total and smooth on the reals.  The module offers
 
@@ -36,7 +39,8 @@ MP = mpmath.mp.clone()
 MP.dps = 40
 mpf = MP.mpf
 
-UNARY = ("neg", "sin", "cos", "tanh", "atan", "gauss", "hyp", "lg")
+UNARY = ("neg", "sin", "cos", "tanh", "atan", "gauss", "hyp", "lg", "asinsin", "acoscos", "atantan")
+WRAPS = ("asinsin", "acoscos", "atantan")
 BINARY = ("add", "sub", "mul", "div")
 
 
@@ -152,6 +156,12 @@ def to_sympy(a, symtab=None):
             return sympy.sqrt(1 + rec(a[1]) ** 2)
         if op == "lg":
             return sympy.log(1 + rec(a[1]) ** 2)
+        if op == "asinsin":
+            return sympy.asin(sympy.sin(rec(a[1])))
+        if op == "acoscos":
+            return sympy.acos(sympy.cos(rec(a[1])))
+        if op == "atantan":
+            return sympy.atan(sympy.tan(rec(a[1])))
         raise ValueError(op)
 
     return rec(a)
@@ -183,6 +193,12 @@ def to_text(a):
         return f"sqrt(1 + ({to_text(a[1])})**2)"
     if op == "lg":
         return f"log(1 + ({to_text(a[1])})**2)"
+    if op == "asinsin":
+        return f"asin(sin({to_text(a[1])}))"
+    if op == "acoscos":
+        return f"acos(cos({to_text(a[1])}))"
+    if op == "atantan":
+        return f"atan(tan({to_text(a[1])}))"
     raise ValueError(op)
 
 
@@ -244,6 +260,19 @@ def ev(a, env):
         u = 1 + x * x
         su = 1 + sx * sx
         return MP.log(u), abs(MP.log(u)) + su / u
+    if op == "asinsin":
+        # asin is ill-conditioned where sin(x) -> +-1 (the kinks): error ~ eps / |cos x|
+        c = abs(MP.cos(x))
+        return MP.asin(MP.sin(x)), (2 + sx) / max(c, mpf(10) ** -30)
+    if op == "acoscos":
+        c = abs(MP.sin(x))
+        return MP.acos(MP.cos(x)), (4 + sx) / max(c, mpf(10) ** -30)
+    if op == "atantan":
+        # discontinuous at cos(x) = 0: a rounding-size change of x flips the branch there
+        c = abs(MP.cos(x))
+        if c < mpf(10) ** -6 * (1 + sx):
+            return MP.atan(MP.tan(x)), mpf("inf")
+        return MP.atan(MP.tan(x)), (2 + sx) / c
     raise ValueError(op)
 
 
@@ -279,6 +308,8 @@ def d(a, name):
     if is_zero(du):
         return ZERO
     u = a[1]
+    if op in WRAPS:
+        raise NotImplementedError("angle-wrap nodes are for value-only workloads")
     if op == "sin":
         return mul(["cos", u], du)
     if op == "cos":
